@@ -9,7 +9,8 @@ pkg=$(python3 -c "import json;print(json.load(open('$meta'))['demo_pkg'])")
 demo=$(ls $src/zz_seed_*_test.go | head -1)
 tname=$(grep -o "func TestSeed[A-Za-z0-9_]*" $demo | head -1 | sed 's/func //')
 d=$(mktemp -d /tmp/seedconf-XXXXXX)
-git -C /repo archive 6edbb89 | tar -x -C $d   # the pinned snapshot commit (before any fix/hook)
+git -C /repo archive ${SEED_BASE:-HEAD} | tar -x -C $d   # base the seed was written against (contract files removed below)
+find $d -name 'zz_contracts_verif.go' -delete
 cd $d
 log=$d/confirm.log
 cp $demo $pkg/
@@ -17,7 +18,7 @@ r_clean=$(go test -vet=off -count=1 -timeout 60m -run "^$tname\$" $pkg 2>&1 | ta
 git apply --whitespace=nowarn $src/patch.diff 2>>$log || patch -p1 -s < $src/patch.diff
 b=$(go build ./... 2>&1 | tail -3)
 r_mut=$(go test -vet=off -count=1 -timeout 60m -run "^$tname\$" $pkg 2>&1 | tail -3 | tr '\n' ' ')
-r_exist=$(nice -n 10 go test -vet=off -count=1 -timeout 180m -skip "^TestSeed" $pkg 2>&1 | tail -3 | tr '\n' ' ')
+r_exist=$(GOMAXPROCS=4 nice -n 10 go test -p 1 -vet=off -count=1 -timeout 180m -skip "^TestSeed" $pkg 2>&1 | tail -3 | tr '\n' ' ')
 ok=0
 case "$r_clean" in ok*) ;; *) ok=1;; esac
 case "$r_mut" in *FAIL*) ;; *) ok=1;; esac
@@ -25,10 +26,10 @@ case "$r_exist" in ok*) ;; *) ok=1;; esac
 [ -n "$b" ] && ok=1
 mkdir -p $dest
 cp $src/patch.diff $demo $dest/
-python3 - "$meta" "$dest/meta.json" "$r_clean" "$r_mut" "$r_exist" "$b" "$ok" <<'PY'
+python3 - "$meta" "$dest/meta.json" "$r_clean" "$r_mut" "$r_exist" "$b" "$ok" "$(git -C /repo rev-parse --short ${SEED_BASE:-HEAD})" <<'PY'
 import json,sys
 m=json.load(open(sys.argv[1]))
-m['confirmed_by_me']={'demo_on_clean_tree':sys.argv[3],'demo_with_patch':sys.argv[4],'existing_tests_of_demo_pkg_with_patch':sys.argv[5],'build_with_patch':sys.argv[6] or 'ok','all_confirmed':sys.argv[7]=='0','base_commit':'6edbb89'}
+m['confirmed_by_me']={'demo_on_clean_tree':sys.argv[3],'demo_with_patch':sys.argv[4],'existing_tests_of_demo_pkg_with_patch':sys.argv[5],'build_with_patch':sys.argv[6] or 'ok','all_confirmed':sys.argv[7]=='0','base_commit':sys.argv[8]}
 json.dump(m,open(sys.argv[2],'w'),indent=1)
 PY
 cd /; rm -rf $d
